@@ -385,6 +385,17 @@ def mixing_sequences():
     return seqs
 
 
+def restore_pairs():
+    """sequences of configurations of one class and one (n, k): each is restored from the state_dict of its predecessor"""
+    seqs = [sq for sq in mixing_sequences() if sq[0][0] != "rm"]
+    h = lambda mu, ext, info: ("hamming", f"mu={mu},ext={int(ext)},info={infoset_str(info)}", {"mu": mu, "extended": ext, "info": info})  # noqa: E731
+    b = lambda mu, d, info: ("bch", f"mu={mu},delta={d},info={infoset_str(info)}", {"mu": mu, "delta": d, "info": info, "admissible": True})  # noqa: E731
+    seqs.append([h(3, True, "left"), h(3, True, [7, 5, 2, 0]), h(3, True, "right"), h(3, True, "left")])
+    seqs.append([b(4, 5, [9, 2, 14, 5, 0, 11, 7]), b(4, 5, "left"), b(4, 5, "right"), b(4, 5, [9, 2, 14, 5, 0, 11, 7])])
+    seqs.append([("golay", f"ext=0,info={i}", {"extended": False, "info": i}) for i in ("left", "right", "left")])
+    return seqs
+
+
 FAMILIES = {
     "generic": generic_small, "generic-structured": generic_structured, "systematic": systematic, "hamming": hamming,
     "golay": golay, "repetition": repetition, "spc": spc, "rm": rm, "cyclic": cyclic, "bch": bch, "rs": rs, "ldpc": ldpc, "dtype-spelling": dtype_spellings,
